@@ -344,7 +344,9 @@ func runC14Overlap(r *Run, rng *Rng, hn int) {
 		panic(err)
 	}
 	var trace []string
-	e.CaseInfo = func() any { return map[string]any{"workload": "overlapping-instances", "fork_at": forkAt, "requests": trace} }
+	e.CaseInfo = func() any {
+		return map[string]any{"workload": "overlapping-instances", "fork_at": forkAt, "requests": trace}
+	}
 	post := func(who string, w interface {
 		Handler() http.Handler
 	}, q c14Req) int {
